@@ -167,6 +167,13 @@ C03ViewReason(e) ==
 Reason(e, s) ==
   CASE e.ev = "skip" -> ""
     [] e.ev = "roundtrip" -> C01Reason(e)
+    [] e.ev = "remarshal" ->      \* object lifecycle: changed in place, marshalled again = freshly built value
+         IF e.res = "panic" THEN "remarshal_panic"
+         ELSE IF e.twin_res # "ok" THEN "harness_twin_marshal"
+         ELSE IF Core(e.proj) # Core(e.twin_proj) THEN "harness_rebuild_mismatch"
+         ELSE IF e.res # "ok" THEN "remarshal_refused"
+         ELSE IF e.bytes # e.twin \/ e.size # Len(e.twin) THEN "remarshal_differs_from_fresh_object"
+         ELSE ""
     [] e.ev = "marshal" -> C04MarshalReason(e)
     [] e.ev = "marshalto" -> C04ToReason(e, s)
     [] e.ev = "decode" -> IF Prop = "C02" THEN C02Reason(e)
